@@ -119,12 +119,16 @@ def run_radial(W, cfg):
 def cfg_mode(tier, seed):
     top = 21 if tier == 'quick' else 45
     out = [{'j': j, 'normalize': nz} for j in range(1, top + 1) for nz in (True, False)]
+    # the flag as 0 / 1 or a numpy boolean (the result of a comparison) means what the literal means
+    out += [{'j': j, 'normalize': nz, 'nform': nf} for j in (1, 2, 4, 5, 7, 11) for nz in (True, False) for nf in ('int', 'npbool', 'npint')]
     return out, len(out), True
 
 
 def run_mode(W, cfg):
     lt = W.lentil
     j = cfg['j']
+    if cfg.get('nform'):
+        cfg = dict(cfg, normalize={'int': int, 'npbool': rnp.bool_, 'npint': rnp.int64}[cfg['nform']](cfg['normalize']))
     shp = (2, 2)
     rho = W.reals('rho', shp, nonneg=True)
     theta = W.reals('th', shp)
@@ -206,6 +210,11 @@ def run_coord(W, cfg):
     for (r, c) in cells:
         got = rho[r, c]
         W.ob_close(f'rho^2 [{r},{c}]', got * got, float(r2[(r, c)] / rmax2), 1e-9)
+    # the angle is measured about the same centroid (x along -columns, y along -rows, as for a centred mask)
+    import math as _m
+    for (r, c) in cells:
+        W.ob_close(f'rho cos(theta) about the centroid [{r},{c}]', rho[r, c] * W.np.cos(theta[r, c]), -float(Fraction(c) - cc) / _m.sqrt(rmax2), 1e-9)
+        W.ob_close(f'rho sin(theta) about the centroid [{r},{c}]', rho[r, c] * W.np.sin(theta[r, c]), -float(Fraction(r) - cr) / _m.sqrt(rmax2), 1e-9)
     Z1 = W.mod('zernike').zernike(vals, 1)
     Z4 = W.mod('zernike').zernike(vals, 4, normalize=False)
     for (r, c) in cells:
